@@ -29,3 +29,23 @@ def lemma_colsum_split(A, nc, c, T0, n, m):
     """colsum over n+m samples = colsum over the first n + colsum over the next m (induction on m)."""
     if m > 0:
         lemma_colsum_split(A, nc, c, T0, n, m - 1)
+
+
+def lemma_store_below(A, i, v, n):
+    """Writing element i does not change the sum of the first n <= i elements (induction on n)."""
+    if n > 0:
+        lemma_store_below(A, i, v, n - 1)
+
+
+def lemma_store_sum(A, i, v, n):
+    """Sum over [0, n) after A[i] := v, for 0 <= i < n, is the old sum - A[i] + v (induction on n down to i+1)."""
+    if n > i + 1:
+        lemma_store_sum(A, i, v, n - 1)
+    else:
+        lemma_store_below(A, i, v, i)
+
+
+def lemma_zero_sum(A, n):
+    """The sum of n zero elements is zero (induction on n)."""
+    if n > 0:
+        lemma_zero_sum(A, n - 1)
